@@ -39,7 +39,7 @@ try:
         cmd = base
         if m:
             c = m.group(1)
-            c = re.sub(r"/tmp/mut\d?/%s/wt" % ID, tree, c)
+            c = re.sub(r"/tmp/mut\d*/%s/wt" % ID, tree, c)
             c = re.sub(r"-o\s+\S+", f"-o {exe}", c); c = c.replace("clang++-14", "clang++").replace("g++-12", "g++")
             if "-o " not in c: c += f" -o {exe}"
             cmd = c + " -w"
